@@ -551,6 +551,17 @@ where
                         {
                             // the listeners are only known at runtime
                             has_dynamic_keys = true;
+                            // keep what was written before it in front of it
+                            if !props.is_empty() {
+                                merge_args.push(Expr::Object(ObjectLit {
+                                    span: DUMMY_SP,
+                                    props: if self.options.merge_props {
+                                        util::dedupe_props(mem::take(&mut props))
+                                    } else {
+                                        mem::take(&mut props)
+                                    },
+                                }));
+                            }
                             merge_args.push(Expr::Call(CallExpr {
                                 span: DUMMY_SP,
                                 callee: Callee::Expr(Box::new(Expr::Ident(
